@@ -77,6 +77,7 @@ type RunCfg struct {
 	Seed     uint64         `json:"seed"`
 	Strat    simrt.Strategy `json:"strat"`
 	NumCPU   int            `json:"numcpu"`
+	MaxProcs int            `json:"maxprocs,omitempty"` // GOMAXPROCS at start; 0: = NumCPU
 	MapMode  int            `json:"mapmode"`
 	Chunk    int            `json:"chunk"`
 	Threads  int            `json:"threads"` // 0: keep Case.Opts.Threads
@@ -148,7 +149,7 @@ func Exec(c *Case, rc *RunCfg) *Result {
 	if o.Threads <= 0 {
 		o.Threads = 1
 	}
-	cfg := simrt.Config{Seed: rc.Seed, Strategy: rc.Strat, NumCPU: rc.NumCPU, MapMode: rc.MapMode, FS: env, MaxSteps: stepLimit(c)}
+	cfg := simrt.Config{Seed: rc.Seed, Strategy: rc.Strat, NumCPU: rc.NumCPU, MaxProcs: rc.MaxProcs, MapMode: rc.MapMode, FS: env, MaxSteps: stepLimit(c)}
 	if rc.Explicit || rc.Replay != nil {
 		cfg.Replay = rc.Replay
 		if cfg.Replay == nil {
